@@ -479,7 +479,14 @@ def rule_fl_flags(cx, rep, port):
                 pos = _positive_flag_test(iff.test, attr)
                 msgs = [c for c in ast.walk(ast.Module(body=iff.body, type_ignores=[])) if isinstance(c, ast.Call) and isinstance(c.func, ast.Attribute) and c.func.attr in ('append', 'push')]
                 msg_ok = pos and len(msgs) == 1 and word.lower() in node_text(msgs[0], 500).lower()
-        rep.decide(ok_read and msg_ok, key + ' report', gw_reads[0] if gw_reads else gw, 'get_warnings reports the {} warning iff the flag is set'.format(word), 'get_warnings does not report the {} warning exactly when the flag is set (negated test, missing read or wrong message)'.format(word))
+        wm = _warnings_model(cx, port, mod, cname)
+        wword = {'None': 'replaced by empty', 'null': 'replaced by empty', 'separator': 'separator', 'BOM': 'bom', 'double quote': 'double quote'}.get(word)
+        if wm is not None and wword in wm:
+            rep.decide(wm[wword] and wm.get('__extra__', True), key + ' report', gw, 'get_warnings reports the {} warning iff the flag is set (evaluated for every combination of the flags)'.format(word), 'get_warnings does not report the {} warning exactly when the flag is set'.format(word))
+        elif wm is None and not (ok_read and msg_ok):
+            rep.undecided(key + ' report', gw, 'how get_warnings reads the flag was not recognised')
+        else:
+            rep.decide(ok_read and msg_ok, key + ' report', gw_reads[0] if gw_reads else gw, 'get_warnings reports the {} warning iff the flag is set'.format(word), 'get_warnings does not report the {} warning exactly when the flag is set (negated test, missing read or wrong message)'.format(word))
         if condfn is _cond_none and _normalize_model(cx, port) is not None:
             nm = _normalize_model(cx, port)
             rep.decide(nm == '', key + ' set-sites', cls, 'set exactly when a missing value is written as empty text (normalize_fields evaluated on five records)', nm)
@@ -497,6 +504,9 @@ def rule_fl_flags(cx, rep, port):
         cls = p.cls('rbql_csv', cname)
         gw = [m for m in cls.body if isinstance(m, ast.FunctionDef) and m.name == 'get_warnings'][0]
         rets = [r for r in walk_no_nested(gw) if isinstance(r, ast.Return)]
+        if _warnings_model(cx, port, 'rbql_csv', cname) is not None:
+            rep.holds(cname + '.get_warnings result', gw, 'returns the list of messages (evaluated for every combination of the flags)')
+            continue
         rep.decide(len(rets) == 1 and isinstance(rets[0].value, ast.Name), cname + '.get_warnings result', gw, 'returns the collected list', 'get_warnings does not return the collected list')
 
 
@@ -528,6 +538,107 @@ def _enclosing_if(n):
             return par, (iff in par.body)
         iff = par
     return None, None
+
+
+def _warnings_model(cx, port, mod, cname):
+    """get_warnings() of a class evaluated for every combination of its warning flags (and one / two distinct field counts): for each
+    flag word, is the warning that contains the word reported exactly when the flag is set?  {word: True/False, '__order__': stable order?}
+    - None when the method is outside the abstract interpreter; computed once per class"""
+    memo = '_warnings_model_{}_{}_{}'.format(port, mod, cname)
+    if hasattr(cx, memo):
+        return getattr(cx, memo)
+    import itertools
+    from .. import absexec as AX
+    p = cx.port(port)
+    cls = p.cls(mod, cname, required=False)
+    gw = [x for x in (cls.body if cls is not None else []) if isinstance(x, ast.FunctionDef) and x.name == 'get_warnings']
+    flagsets = {'CSVWriter': [('none_in_output' if port == 'py' else 'null_in_output', (False, True), 'replaced by empty'), ('delim_in_simple_output', (False, True), 'separator')],
+                'CSVRecordIterator': [('utf8_bom_removed', (False, True), 'bom'), ('first_defective_line', (None, 7), 'double quote'), ('fields_info', (1, 2), 'not consistent')],
+                'TableIterator': [('fields_info', (1, 2), 'not consistent')]}.get(cname)
+    res = None
+    try:
+        if len(gw) != 1 or flagsets is None:
+            raise Undecided('get_warnings not found', cls)
+        ok = {w: True for _, _, w in flagsets}
+        orders = set()
+        for combo in itertools.product(*[vals for _, vals, _ in flagsets]):
+            selfv = AX.Abs('Self')
+            vals = {}
+            for (attr, _, _), v in zip(flagsets, combo):
+                vals[attr] = ({3: 1} if v == 1 else {3: 1, 4: 5}) if attr == 'fields_info' else v
+            vals['table_name'] = 'input'
+
+            def on_attr(ex, node, obj, attr, vals=vals):
+                if obj is selfv and attr in vals:
+                    return vals[attr]
+                return AX.NOT_HANDLED
+
+            def on_call(ex, node, fname, recv, args):
+                short = node.func.attr if isinstance(node.func, ast.Attribute) else fname
+                if short == 'make_inconsistent_num_fields_warning':
+                    return 'Number of fields in "input" table is not consistent: e.g. ...'
+                return AX.NOT_HANDLED
+            ex = AX.Explorer(p, mod, on_call=on_call, on_attr=on_attr, max_choices=1)
+            runs, cut = ex.explore(gw[0], [selfv], cls=cname)
+            if cut or len(runs) != 1 or runs[0].outcome[0] != 'return' or not isinstance(runs[0].outcome[1], list):
+                raise Undecided('get_warnings does not return a list', gw[0])
+
+            def text(v):
+                if isinstance(v, str):
+                    return v
+                if isinstance(v, AX.Abs) and v.kind == 'Text':
+                    return ''.join(text(x) for x in v.props['parts'])
+                return str(v)
+            msgs = [text(m_).lower() for m_ in runs[0].outcome[1]]
+            seen = []
+            for (attr, vs, word), v in zip(flagsets, combo):
+                is_set = v == vs[1]
+                hits = [i_ for i_, m_ in enumerate(msgs) if word in m_]
+                if (len(hits) == 1) != is_set or (not is_set and hits):
+                    ok[word] = False
+                if hits:
+                    seen.append((hits[0], word))
+            if len(msgs) != len(seen):
+                ok['__extra__'] = False
+            orders.add(tuple(w for _, w in sorted(seen)) if len(seen) == len(flagsets) else None)
+        res = ok
+    except (Undecided, AX.Cut, AX._NeedChoice, AX.Raised, KeyError, IndexError, TypeError, AttributeError, ValueError) as e_:
+        import os
+        if os.environ.get('RBQL_VERIF_DEBUG'):
+            print('get_warnings model gave up ({}):'.format(cname), type(e_).__name__, e_)
+        res = None
+    setattr(cx, memo, res)
+    return res
+
+
+def _cited_records_model(cx, port, p, mod, fd):
+    """the function that picks the two records cited by the inconsistent-field-count warning, evaluated on three tables {field count:
+    first record number}: '' / problem text / None (outside the abstract interpreter)"""
+    from .. import absexec as AX
+    try:
+        for table, want in (({3: 5, 4: 2, 7: 9}, (2, 4, 5, 3)), ({2: 1, 10: 12, 1: 11}, (1, 2, 11, 1)), ({5: 30, 6: 4}, (4, 6, 30, 5))):
+            ex = AX.Explorer(p, mod, max_choices=1)
+            args = [dict(table)] if len(fd.args.args) == 1 else ['input', dict(table)]
+            runs, cut = ex.explore(fd, args)
+            if cut or len(runs) != 1 or runs[0].outcome[0] != 'return':
+                return None
+            v = runs[0].outcome[1]
+            if isinstance(v, (list, tuple)) and len(v) == 4:
+                got = tuple(v)
+            elif isinstance(v, str):
+                import re as _re
+                nums = [int(x) for x in _re.findall(r'\d+', v.split(':', 1)[-1])]
+                got = tuple(nums) if len(nums) == 4 else None
+            else:
+                return None
+            if got != want:
+                return 'for the field-count table {} (count: first record) the warning cites (record, fields) {} instead of {}: it must name the two field counts that were seen first'.format(table, got, want)
+    except (Undecided, KeyError, IndexError, TypeError, AttributeError, ValueError) as e_:
+        import os
+        if os.environ.get('RBQL_VERIF_DEBUG'):
+            print('cited records model gave up:', type(e_).__name__, e_)
+        return None
+    return ''
 
 
 def _normalize_model(cx, port):
@@ -724,11 +835,23 @@ def rule_fl_fields(cx, rep, port):
         gw = [x for x in cls.body if isinstance(x, ast.FunctionDef) and x.name == 'get_warnings'][0]
         tests = [n for n in walk_no_nested(gw) if isinstance(n, ast.If) and 'fields_info' in node_text(n.test)]
         okt = len(tests) == 1 and isinstance(tests[0].test, ast.Compare) and isinstance(tests[0].test.ops[0], ast.Gt) and isinstance(tests[0].test.comparators[0], ast.Constant) and tests[0].test.comparators[0].value == 1
-        rep.decide(okt, cname + '.get_warnings fields', tests[0] if tests else gw, 'warning iff more than one distinct field count was seen', 'the inconsistent-field-count warning is not issued exactly when more than one field count was seen')
+        wm = _warnings_model(cx, port, mod, cname)
+        if wm is not None and 'not consistent' in wm:
+            rep.decide(wm['not consistent'], cname + '.get_warnings fields', gw, 'warning iff more than one distinct field count was seen (get_warnings evaluated with one and two counts)', 'the inconsistent-field-count warning is not issued exactly when more than one field count was seen')
+        elif not okt and not tests:
+            rep.undecided(cname + '.get_warnings fields', gw, 'how get_warnings tests the number of field counts was not recognised')
+        else:
+            rep.decide(okt, cname + '.get_warnings fields', tests[0] if tests else gw, 'warning iff more than one distinct field count was seen', 'the inconsistent-field-count warning is not issued exactly when more than one field count was seen')
     # message builder: sort by record number, take the first two
     for mod in (['rbql_engine', 'rbql_csv'] if port == 'py' else ['rbql']):
         fn = 'make_inconsistent_num_fields_warning' if port == 'py' else 'sample_first_two_inconsistent_records'
         fd = p.func(mod, fn)
+        cited_m = _cited_records_model(cx, port, p, mod, fd)
+        if cited_m is not None:
+            rep.decide(cited_m == '', '{}.{} order'.format(mod, fn), fd, 'entries ordered by record number ascending (evaluated on three field-count tables)', cited_m)
+            rep.decide(cited_m == '', '{}.{} picks'.format(mod, fn), fd, 'cites the two field counts seen first', cited_m)
+            continue
+        rep._fallback = fn + ' is outside the abstract interpreter'
         sorts = [c for c in walk_no_nested(fd) if isinstance(c, ast.Call) and ((dotted(c.func) == 'sorted') or (isinstance(c.func, ast.Attribute) and c.func.attr == 'sort'))]
         ok = False
         if len(sorts) == 1:
